@@ -10,3 +10,7 @@ add("C03", "runtime monitor: crash supervision + strict output parser + protocol
     "Held on the executions produced: mutated request streams (server, buffered/streaming, no recovery middleware), over-limit bodies, mutated response streams (client incl. cookie/location accessors and redirects) and direct calls of the exported parsers caused no panic, hang or malformed output, and every protocol-level rejection was exactly one 4xx with Connection: close, last on a closed connection, without a handler entry. One recorded finding (declared-length preallocation) is reported as KNOWN-FINDING.",
     "Trusted: mutator reach (no coverage feedback), strict parser, classifier calibrations listed in the evidence assumptions.",
     "DESIGN.md §4 C03")
+add("C04", "runtime monitor: response programs executed by a real handler, captured bytes decoded by the harness's strict parser and by net/http.ReadResponse and compared with the program",
+    "Held on the executions produced: every response of every generated program sequence (status x header ops x body op incl. streams and the chunked writer with zero-length writes and flushes x sizes x HEAD x close x HTTP/1.0) decoded to exactly the programmed status, application fields and body, with consistent framing, no body where forbidden, and the next response starting where the previous ended.",
+    "Trusted: strict parser and net/http as independent decoders; the response program interpreter in the handler.",
+    "DESIGN.md §4 C04")
